@@ -74,6 +74,22 @@ def cases(rng, tier):
                 s = rng.randint(0, n - 1); e = rng.randint(s + 1, n)
                 ss.append(s); es.append(e)
             add(a, {"kind": "windows", "ss": ss, "es": es})
+    # LONG arrays (lengths around 2**8 and 2**16, a few long runs; positions next to those boundaries): implementation vs oracle
+    # only (too long for the Lean driver)
+    for L in ([255, 257, 65535, 65537, 70000] if tier == "quick" else [255, 256, 257, 65535, 65536, 65537, 70000, 131073]):
+        cuts = sorted({c for c in (rng.choice([1, 250, 255, 256, 65530, 65535, 65536, 65600, L - 1, rng.randint(1, L)]) for _ in range(4)) if 0 < c < L})
+        a, prev, cls = [], 0, rng.randrange(3)
+        for c in cuts + [L]:
+            a += [cls] * (c - prev); prev = c; cls = (cls + 1) % 3
+        pts = [0, 1, 254, 255, 256, 257, 65534, 65535, 65536, 65537, L - 1, -1, -L, -256, -65536]
+        pts = [q for q in pts if -L <= q < L]
+        add(a, {"kind": "list", "is": pts, "long": True}, dt="int64")
+        add(a, {"kind": "list", "is": sorted(pts), "long": True}, dt="int16")
+        for (x, y, k) in [(None, None, 2), (None, None, -3), (250, None, 257), (None, 65540, 255), (65530, 65545, 1), (None, None, -65536), (-70000, 70000, 7)]:
+            add(a, {"kind": "slice", "a0": x, "b0": y, "k": k, "long": True}, dt=rng.choice(["int64", "uint8", "bool"]))
+        add(a, {"kind": "int", "i": rng.choice(pts), "long": True}, dt="int32")
+        ss = [q for q in (0, 254, 65530, L - 3) if 0 <= q < L - 1]
+        add(a, {"kind": "windows", "ss": ss, "es": [min(L, q + 10) for q in ss], "long": True}, dt="int64")
     for _ in range(1500 if tier == "quick" else 20000):
         a = rlgen.array_random(rng, 40)
         n = len(a)
@@ -102,6 +118,8 @@ def cases(rng, tier):
 
 
 def key(p):
+    if p["ix"].get("long"):
+        return engine.stable_hash([len(p["a"]), p["a"][:3], p["ix"], p["dtype"]])
     return engine.stable_hash([p["a"], p["ix"]])
 
 
@@ -202,6 +220,8 @@ def oracle(p):
 
 
 def lean_request(p):
+    if p["ix"].get("long"):
+        return None
     ix = dict(p["ix"])
     ix["op"] = "RL.index"
     ix["a"] = rlgen.lean_classes(p["a"], p["dtype"])
